@@ -100,9 +100,14 @@ def gen_docs(c, delim):
             # newline-terminated lines of <= 100 bytes, total length exactly n
             out = bytearray()
             while len(out) < n:
-                k = min(rng.randrange(1, 100), n - len(out) - 1)
-                out += body[len(out):len(out) + k].replace(b"\n", b"x") + b"\n"
-            cases.append([bytes(out[:n - 1]) + b"\n", b"tail\n"])
+                remaining = n - len(out)
+                k = min(rng.randrange(1, 100), remaining - 1)
+                if remaining - (k + 1) == 1:      # never leave room for only a bare newline (= blank line)
+                    k += 1
+                k = max(k, 1)
+                out += body[len(out):len(out) + k].replace(b"\n", b"x").ljust(k, b"y") + b"\n"
+            assert b"\n\n" not in out and not out.startswith(b"\n")
+            cases.append([bytes(out), b"tail\n"])
         else:
             cases.append([body, b"tail"])
     # targeted: CR at end of line, a line that is only CR, CR before separator, empty docs, many docs
